@@ -110,35 +110,35 @@ fn none(_: u8) -> Option<[u8; NTASK]> { None }
 /// P0 requires P1 (Equals) then reads Cell0; P1 reads Cell1. All exact.
 fn prog_chain() { unsafe { PROG = [[E; NINS]; NTASK]; PROG[0] = [Ins::Req(1, 0), Ins::Read(0, M_EXACT), E, E]; PROG[1] = [Ins::Read(1, M_EXACT), E, E, E]; } }
 fn expect_chain(ch: u8) -> Option<[u8; NTASK]> { Some(match ch { 0 => [0, 0, 0, 0], 1 | 6 => [1, 0, 0, 0], 2 | 3 | 4 => [1, 1, 0, 0], _ => [0, 0, 0, 0] }) }
-//@h props=C01,C02:t,C09:t tier=quick unwind=14 stubs=sort,boxslice timeout=1200 fieldsens=1024
+//@h props=C01,C02:t,C09:t tier=quick unwind=14 stubs=sort,boxslice timeout=2400 fieldsens=1024
 fn session_td_chain() { prog_chain(); history_td(0, 7, true, expect_chain); }
 
 /// Early cut-off: P1 reads Cell1 but returns a constant; P0 requires P1 with Equals: P1 re-executes on a change, P0 does not.
 fn prog_cutoff() { unsafe { PROG = [[E; NINS]; NTASK]; PROG[0] = [Ins::Req(1, 0), Ins::Read(0, M_EXACT), E, E]; PROG[1] = [Ins::Read(1, M_EXACT), Ins::Set(5), E, E]; } }
 fn expect_cutoff(ch: u8) -> Option<[u8; NTASK]> { Some(match ch { 0 | 5 => [0, 0, 0, 0], 1 | 6 => [1, 0, 0, 0], _ => [0, 1, 0, 0] }) }
-//@h props=C02,C09:t,C01:t tier=quick unwind=14 stubs=sort,boxslice timeout=1200 fieldsens=1024
+//@h props=C02,C09:t,C01:t tier=quick unwind=14 stubs=sort,boxslice timeout=2400 fieldsens=1024
 fn session_td_early_cutoff() { prog_cutoff(); history_td(0, 7, true, expect_cutoff); }
 
 /// Coarse checker: P0 reads Cell1 with the parity checker: a change inside the parity class (7 -> 9, 7 -> 5) re-executes nothing.
 fn prog_coarse() { unsafe { PROG = [[E; NINS]; NTASK]; PROG[0] = [Ins::Read(1, M_PARITY), Ins::Read(0, M_ALWAYS), E, E]; } }
 fn expect_coarse(ch: u8) -> Option<[u8; NTASK]> { Some(match ch { 3 => [1, 0, 0, 0], _ => [0, 0, 0, 0] }) }
-//@h props=C09,C02:t,C01:t tier=quick unwind=14 stubs=sort,boxslice timeout=1200 fieldsens=1024
+//@h props=C09,C02:t,C01:t tier=quick unwind=14 stubs=sort,boxslice timeout=2400 fieldsens=1024
 fn session_td_coarse_checkers() { prog_coarse(); history_td(0, 7, false, expect_coarse); }
 
 /// Dynamic dependencies (C08): P0 reads Cell0; when the observation is even it requires P1 (reads Cell1), otherwise it reads Cell2.
 fn prog_dynamic() { unsafe { PROG = [[E; NINS]; NTASK]; PROG[0] = [Ins::Read(0, M_EXACT), Ins::SkipIfOdd, Ins::Req(1, 0), Ins::Read(2, M_EXACT)]; PROG[1] = [Ins::Read(1, M_EXACT), E, E, E]; } }
-//@h props=C08,C01:t,C02:t tier=quick unwind=14 stubs=sort,boxslice timeout=1200 fieldsens=1024
+//@h props=C08,C01:t,C02:t tier=quick unwind=14 stubs=sort,boxslice timeout=2400 fieldsens=1024
 fn session_td_dynamic_dependencies() { prog_dynamic(); history_td(0, 7, true, none); }
 
 /// Generated resource: P1 reads Cell1 and writes Cell0; P0 requires P1 (accept-everything checker) and then reads Cell0.
 fn prog_generated() { unsafe { PROG = [[E; NINS]; NTASK]; PROG[0] = [Ins::Req(1, 1), Ins::Read(0, M_EXACT), E, E]; PROG[1] = [Ins::Read(1, M_EXACT), Ins::Write(0, M_EXACT, 3), Ins::Set(1), E]; } }
-//@h props=C01,C02:t,C09:t tier=quick unwind=14 stubs=sort,boxslice timeout=1200 fieldsens=1024
+//@h props=C01,C02:t,C09:t tier=quick unwind=14 stubs=sort,boxslice timeout=2400 fieldsens=1024
 fn session_td_generated_resource() { prog_generated(); history_td(0, 7, true, none); }
 
 /// Diamond: P0 requires P1 and P2, both require P3 which reads Cell1.
 fn prog_diamond() { unsafe { PROG = [[E; NINS]; NTASK]; PROG[0] = [Ins::Req(1, 0), Ins::Req(2, 0), E, E]; PROG[1] = [Ins::Req(3, 0), E, E, E]; PROG[2] = [Ins::Req(3, 0), Ins::Read(0, M_EXACT), E, E]; PROG[3] = [Ins::Read(1, M_EXACT), E, E, E]; } }
 fn expect_diamond(ch: u8) -> Option<[u8; NTASK]> { Some(match ch { 0 | 5 => [0, 0, 0, 0], 1 | 6 => [1, 0, 1, 0], _ => [1, 1, 1, 1] }) }
-//@h props=C02:t,C01:t tier=quick unwind=14 stubs=sort,boxslice timeout=1800 fieldsens=1024
+//@h props=C02:t,C01:t tier=quick unwind=14 stubs=sort,boxslice timeout=2400 fieldsens=1024
 fn session_td_diamond() { prog_diamond(); history_td(0, 4, true, expect_diamond); }
 
 // ---- bottom-up ----------------------------------------------------------------------------------------------------------
@@ -160,7 +160,7 @@ fn fresh() -> Pie<()> { let mut pie = Pie::with_tracker(()); pie.resource_state_
 
 /// P1 generates Cell0; P0 reads Cell0 WITHOUT requiring P1. Whichever is built first (solver-chosen), also in different
 /// sessions, the second build must abort with a hidden-dependency error; on the writing side before the writer is opened.
-//@h props=C05 tier=quick unwind=14 stubs=sort,boxslice timeout=1200 fieldsens=1024 expect_fail="Hidden dependency; resource"
+//@h props=C05 tier=quick unwind=14 stubs=sort,boxslice timeout=2400 fieldsens=1024 expect_fail="Hidden dependency; resource"
 fn session_hidden_dependency_aborts_either_order() {
   unsafe { PROG = [[E; NINS]; NTASK]; PROG[0] = [Ins::Read(0, M_EXACT), E, E, E]; PROG[1] = [Ins::Set(3), Ins::Write(0, M_EXACT, 0), E, E]; PROG[2] = [Ins::Req(0, 0), Ins::Set(3), Ins::WrittenTo(0, M_EXACT, 0), E]; }
   let mut pie = fresh();
@@ -176,7 +176,7 @@ fn session_hidden_dependency_aborts_either_order() {
 }
 
 /// P1 and P2 both write Cell0 (P2 through create_writer + written_to): the second one, in a later session, must abort.
-//@h props=C06 tier=quick unwind=14 stubs=sort,boxslice timeout=1200 fieldsens=1024 expect_fail="Overlapping write; resource"
+//@h props=C06 tier=quick unwind=14 stubs=sort,boxslice timeout=2400 fieldsens=1024 expect_fail="Overlapping write; resource"
 fn session_overlapping_write_aborts() {
   unsafe { PROG = [[E; NINS]; NTASK]; PROG[1] = [Ins::Set(3), Ins::Write(0, M_EXACT, 0), E, E]; PROG[2] = [Ins::Set(4), Ins::Write(0, M_EXACT, 0), E, E]; PROG[3] = [Ins::Set(4), Ins::WrittenTo(0, M_EXACT, 0), E, E]; }
   let mut pie = fresh();
@@ -189,12 +189,12 @@ fn session_overlapping_write_aborts() {
 }
 
 /// The same writer re-executing (its input changed) is not an overlap, and a reader that requires it stays legal.
-//@h props=C06,C05:t,C01:t tier=quick unwind=14 stubs=sort,boxslice timeout=1200 fieldsens=1024
+//@h props=C06,C05:t,C01:t tier=quick unwind=14 stubs=sort,boxslice timeout=2400 fieldsens=1024
 fn session_reexecuted_writer_is_no_overlap() { prog_generated(); history_td(0, 4, true, none); }
 
 /// P0 requires P1 requires P2 requires P0 (cycle of length 3), or P3 requires itself: abort with a cyclic-dependency error,
 /// no task entered twice.
-//@h props=C07 tier=quick unwind=14 stubs=sort,boxslice timeout=1200 fieldsens=1024 expect_fail="Cyclic task dependency; current executing task"
+//@h props=C07 tier=quick unwind=14 stubs=sort,boxslice timeout=2400 fieldsens=1024 expect_fail="Cyclic task dependency; current executing task"
 fn session_cyclic_requires_abort() {
   unsafe { PROG = [[E; NINS]; NTASK]; PROG[0] = [Ins::Req(1, 0), E, E, E]; PROG[1] = [Ins::Req(2, 1), E, E, E]; PROG[2] = [Ins::Req(0, 0), E, E, E]; PROG[3] = [Ins::Req(3, 0), E, E, E]; }
   let mut pie = fresh();
@@ -214,7 +214,7 @@ fn session_cyclic_requires_abort() {
 // ---- C18 through sessions -------------------------------------------------------------------------------------------------
 /// P0 reads Cell1 with the failing-mode checker. Session 2 runs with the fault raised: the task is re-executed (no stale
 /// reuse), the error is reported, the build returns. Session 3 runs with the fault gone: judged by the checker again.
-//@h props=C18,C01 tier=quick unwind=14 stubs=sort,boxslice timeout=1200 fieldsens=1024
+//@h props=C18,C01 tier=quick unwind=14 stubs=sort,boxslice timeout=2400 fieldsens=1024
 fn session_checker_error_then_recovery() {
   unsafe { PROG = [[E; NINS]; NTASK]; PROG[0] = [Ins::Req(1, 0), Ins::Read(0, M_EXACT), E, E]; PROG[1] = [Ins::Read(1, M_FAILING), E, E, E]; }
   let mut pie = fresh();
@@ -245,7 +245,7 @@ fn root_require_rec(pie: &mut Pie<Rec>, id: u8) -> u8 {
 }
 /// A leaf task reading Cell1: first build executes it, second build (nothing changed, or Cell1 changed) re-validates it.
 /// The recorded stream must be exactly the properly nested sequence, with the values that were returned.
-//@h props=C17 tier=quick unwind=14 stubs=sort,boxslice timeout=1200 fieldsens=1024
+//@h props=C17 tier=quick unwind=14 stubs=sort,boxslice timeout=2400 fieldsens=1024
 fn session_event_stream_of_leaf_builds() {
   unsafe { PROG = [[E; NINS]; NTASK]; PROG[1] = [Ins::Read(1, M_EXACT), E, E, E]; }
   let mut pie = Pie::with_tracker(Rec::default());
@@ -282,7 +282,7 @@ fn session_event_stream_of_leaf_builds() {
 
 /// Two roots sharing a dependency, built in separate sessions: P0 and P1 both require P2 (reads Cell1). After a change, P0 is
 /// rebuilt first (which re-executes P2), then P1 in a later session must still notice that P2's output changed.
-//@h props=C01,C09,C02:t tier=quick unwind=14 stubs=sort,boxslice timeout=1500 fieldsens=1024
+//@h props=C01,C09,C02:t tier=quick unwind=14 stubs=sort,boxslice timeout=2400 fieldsens=1024
 fn session_td_two_roots_share_a_dependency() {
   unsafe { PROG = [[E; NINS]; NTASK]; PROG[0] = [Ins::Req(2, 0), Ins::Read(0, M_EXACT), E, E]; PROG[1] = [Ins::Req(2, 0), Ins::Set(0), Ins::Req(2, 0), E]; PROG[2] = [Ins::Read(1, M_EXACT), E, E, E]; }
   let mut pie = fresh();
@@ -303,7 +303,7 @@ fn session_td_two_roots_share_a_dependency() {
 /// C08 through sessions: P0 reads Cell0 and, depending on it, either requires P1 (which reads Cell1) or not; then reads Cell2.
 /// After Cell0 flips so that P0 no longer requires P1, a change to Cell1 must not re-execute anything when P0 is built; a change
 /// to Cell2 (still used) must re-execute P0; flipping Cell0 back must bring the require back.
-//@h props=C08,C01:t,C02:t tier=quick unwind=14 stubs=sort,boxslice timeout=1500 fieldsens=1024
+//@h props=C08,C01:t,C02:t tier=quick unwind=14 stubs=sort,boxslice timeout=2400 fieldsens=1024
 fn session_td_dropped_dependency_cannot_trigger() {
   prog_dynamic();
   let mut pie = fresh();
@@ -409,7 +409,7 @@ fn session_c20_writer_role_moves_after_check_error() {
 }
 /// Known finding (role inversion, writer): root P3 visits the NEW writer P2 first; P2 writes Cell2 while the write edge that P1
 /// recorded in the earlier (even) state still exists, and pie aborts with "Overlapping write" although P1 no longer writes.
-//@h props=C20 tier=quick unwind=14 stubs=sort,boxslice timeout=1500 fieldsens=1024 known=C20-KF1
+//@h props=C20 tier=quick unwind=14 stubs=sort,boxslice timeout=2400 fieldsens=1024 known=C20-KF1
 fn session_c20_kf_new_writer_visited_before_old_writer() {
   prog_writer_role();
   let mut pie = fresh();
@@ -428,7 +428,7 @@ fn prog_require_direction() { unsafe {
 } }
 /// After the flip the former requirer is built first (it drops its require edge), then the new requirer: no cycle exists.
 /// Flipping back, the order of the two root builds is reversed accordingly.
-//@h props=C20,C07:t,C08:t,C01:t tier=quick unwind=14 stubs=sort,boxslice timeout=1500 fieldsens=1024
+//@h props=C20,C07:t,C08:t,C01:t tier=quick unwind=14 stubs=sort,boxslice timeout=2400 fieldsens=1024
 fn session_c20_require_direction_flips() {
   prog_require_direction();
   let mut pie = fresh();
@@ -462,7 +462,7 @@ fn session_c20_require_direction_flips_twice() {
 /// Known finding (role inversion, require direction): after the flip the NEW requirer P1 is built first; its require of P0
 /// meets the edge P0 -> P1 that P0 recorded in the earlier state, and pie aborts with "Cyclic task dependency" although P0
 /// no longer requires P1.
-//@h props=C20 tier=quick unwind=14 stubs=sort,boxslice timeout=1500 fieldsens=1024 known=C20-KF2
+//@h props=C20 tier=quick unwind=14 stubs=sort,boxslice timeout=2400 fieldsens=1024 known=C20-KF2
 fn session_c20_kf_new_requirer_built_before_old_requirer() {
   prog_require_direction();
   let mut pie = fresh();
@@ -483,7 +483,7 @@ fn prog_reader_role() { unsafe {
   PROG[1] = [Ins::Req(2, 0), Ins::Req(0, 0), E, E];
 } }
 /// The former reader is re-validated first (drops its read edge), then the new generator writes: no hidden dependency exists.
-//@h props=C20,C05:t,C08:t,C01:t tier=quick unwind=14 stubs=sort,boxslice timeout=1500 fieldsens=1024
+//@h props=C20,C05:t,C08:t,C01:t tier=quick unwind=14 stubs=sort,boxslice timeout=2400 fieldsens=1024
 fn session_c20_reader_stops_before_generator_starts() {
   prog_reader_role();
   let mut pie = fresh();
@@ -506,7 +506,7 @@ fn session_c20_reader_stops_before_generator_starts() {
 }
 /// Known finding (role inversion, reader): root P1 visits the new generator P2 first; P2 writes Cell2 while the read edge that
 /// P0 recorded in the earlier state still exists, and pie aborts with "Hidden dependency" although P0 no longer reads Cell2.
-//@h props=C20 tier=quick unwind=14 stubs=sort,boxslice timeout=1500 fieldsens=1024 known=C20-KF3
+//@h props=C20 tier=quick unwind=14 stubs=sort,boxslice timeout=2400 fieldsens=1024 known=C20-KF3
 fn session_c20_kf_generator_visited_before_former_reader() {
   prog_reader_role();
   let mut pie = fresh();
